@@ -79,6 +79,15 @@ func (a *AggOracle) processLatestGER(ctx context.Context, blockNumToFetch *uint6
 	// Fetch the latest GER
 	blockNum, gerToInject, err := a.getLastFinalizedGER(ctx, *blockNumToFetch)
 	if err != nil {
+		switch {
+		case errors.Is(err, l1infotreesync.ErrBlockNotProcessed):
+			// the syncer is behind the finalized block: keep the block and retry it on the next iteration,
+			// otherwise a syncer that always lags the latest finalized block would never be queried successfully
+			*blockNumToFetch = blockNum
+		case errors.Is(err, l1infotreesync.ErrNotFound):
+			// there is no GER until that block: ask for the latest finalized block again
+			*blockNumToFetch = 0
+		}
 		return err
 	}
 
